@@ -26,6 +26,7 @@ AXES = {
     "two": [1.0, 3.0],
     "one": [2.0],
     "uniform3": [1.0, 2.0, 3.0],
+    "through_zero": [-2.0, -1.0, 0.0, 1.0, 2.0],  # an axis point that is exactly 0
 }
 KINDS = ["zero_only", "relation", "penalty_source", "penalty_target", "weight_global", "weight_model"]
 
@@ -424,6 +425,11 @@ def run(run: core.Run):
             for lo, hi in itertools.product(B, B):
                 pair_cases.append({"axis": ax, "kind": kind, "linked": False, "pair": "twin", "intervals": [[enc(lo), enc(hi)]], "seed": run.seed})
     extra = []
+    Bz = bound_alphabet(AXES["through_zero"])
+    for kind in ("zero_only", "relation", "weight_global"):
+        for lo, hi in itertools.product(Bz[::2] if quick else Bz, repeat=2):
+            for linked in (False, True):
+                extra.append({"axis": "through_zero", "kind": kind, "linked": linked, "intervals": [[enc(lo), enc(hi)]], "seed": run.seed})
     for ax in ("uniform5", "nonuniform5"):
         axis = AXES[ax]
         B = bound_alphabet(axis)
